@@ -46,7 +46,7 @@ def nontrivial(c):
 
 def run(pid, tier, seed, replay):
     ck = Check(pid, tier, seed, level="proof")
-    n = 4000 if tier == "quick" else 60000
+    n = 2000 if tier == "quick" else 60000
     proof_ok = ck.proof_step(extra_targets=["Model/GroupValues.vo"])
     ok, out, dt = vlib.cargo_build("h_physplan", bin="c13")
     ck.log("cargo build: ok=%s (%.0fs)" % (ok, dt))
